@@ -130,3 +130,19 @@ def rollout_redeploy_grants_the_drain_timeout(deploy_timeout=SEC, drain_timeout=
     r = dict(req("r1", "delay:%d" % (3 * SEC)), headers=[[H(b"Cookie"), H(b"kamal-rollout=alice")]])
     return {"steps": [dep("c1", [b"ta:80"]), rd("c2", b"tr:80"), rs, r, {"op": "sleep", "ns": SEC // 10}, rd("c4", b"ts:80"),
                       {"op": "sleep", "ns": 6 * SEC}]}
+
+
+def record_of_an_ended_request_is_not_the_new_one():
+    """two requests in flight on the old target when its drain begins: one ends early, the other keeps the drain open until
+    the deadline; a request that arrives meanwhile is served by the NEW target and is still running when the old drain ends
+    ("cancel the rest"): it must not be touched by that drain"""
+    return {"steps": [dep("c1", [b"ta:80"]), req("r1", "delay:%d" % SEC), req("r2", "delay:%d" % (8 * SEC)), {"op": "sleep", "ns": SEC // 10},
+                      dep("c2", [b"tb:80"], asyn=True, drain=3 * SEC), {"op": "sleep", "ns": SEC + SEC // 2},
+                      req("r3", "delay:%d" % (4 * SEC)), req("r4", "stream:%d" % (4 * SEC)), {"op": "sleep", "ns": 6 * SEC}]}
+
+
+def streamed_response_runs_on_while_draining():
+    """a streamed response (no Content-Length) whose first part is with the client when the drain begins and whose rest
+    arrives well inside the drain timeout must reach the client complete"""
+    return {"steps": [dep("c1", [b"ta:80"]), req("r1", "stream:%d" % (2 * SEC)), req("r2", "stream:%d" % (SEC // 2)),
+                      {"op": "sleep", "ns": SEC // 10}, dep("c2", [b"tb:80"], asyn=True, drain=5 * SEC), {"op": "sleep", "ns": 6 * SEC}]}
